@@ -163,7 +163,7 @@ def prove_direct(src_root, ex: Explorer):
 
             def pyvc_await(self, it3):
                 conn = self.conn
-                order.append(('connect', any(x is conn for x in w.registry)))
+                order.append(('connect', any(x is conn for x in w.registry), conn.attrs['state'].name))
                 try:
                     it3.aio.yield_point('connect')
                 except PyRaise:
@@ -234,6 +234,8 @@ def prove_direct(src_root, ex: Explorer):
         reg = [o for o in order if isinstance(o, tuple) and o[0] == 'connect']
         if reg:
             ctx.prove(f'C10.registry.add#_make_direct_connection[{tag}]', reg[0][1] is True, 'registered before the first yield of the attempt')
+            ctx.prove(f'C10.connect.fresh#_make_direct_connection[{tag}]', all(o[2] == 'UNINITIALIZED' for o in reg),
+                      f'connect() called on a peer connection that is {[o[2] for o in reg]}: a peer connection is connected once (closed -> connecting is not monotone)')
     ex.run(path, 'direct')
 
 
@@ -414,7 +416,7 @@ def prove_connect_to_peer(src_root, ex: Explorer):
             created.append(conn)
 
             def body(it3):
-                order.append(('connect', any(x is conn for x in w.registry)))
+                order.append(('connect', any(x is conn for x in w.registry), conn.attrs['state'].name))
                 if oc == 'connect-fails':
                     conn.attrs['state'] = enum(it3, CONN, 'ConnectionState', 'CLOSED')
                     w.registry[:] = [x for x in w.registry if x is not conn]
@@ -453,6 +455,10 @@ def prove_connect_to_peer(src_root, ex: Explorer):
                       and raised == 'PeerConnectionError' and not w.registry,
                       'when connecting back fails the server must be told CannotConnect(ticket, user) exactly once and nothing stays registered')
         ctx.prove(f'C10.registry.add#_handle_connect_to_peer[{oc}]', order and order[0][1] is True)
+        ctx.prove(f'C10.connect.fresh#_handle_connect_to_peer[{oc},clear={has_clear},obfuscated={has_obf},prefer={prefer}]',
+                  all(o[2] == 'UNINITIALIZED' for o in order if o[0] == 'connect'),
+                  f'connect() called on a peer connection that is {[o[2] for o in order if o[0] == "connect"]}: a peer connection is connected once '
+                  '(closed -> connecting is not monotone; the second attempt needs a new connection object)')
         # the connection is made to the port select_port chose, and speaks obfuscated exactly if that is the obfuscated port
         want = (20, True) if (has_obf and (prefer or not has_clear)) else (10, False)
         got = (created[0].attrs.get('port'), created[0].attrs.get('obfuscated')) if created else None
